@@ -13,6 +13,7 @@ LAYERS = {
     "catalog": ("harness.value_adapter", "run_catalog_script", "Trace_FimCatalog", "Trace_FimCatalog.cfg", None),
     "cbm": ("harness.cbm_adapter", "run_script", "Trace_FimCBM", "Trace_FimCBM.cfg", None),
     "codec": ("harness.value_adapter", "run_codec_script", "Trace_FimCodec", "Trace_FimCodec.cfg", None),
+    "domain": ("harness.domain_adapter", "run_script", "Trace_FimDomains", "Trace_FimDomains.cfg", None),
     "conv": ("harness.conv_adapter", "run_script", "Trace_FimSliverConv", "Trace_FimSliverConv.cfg", None),
     "delegation": ("harness.value_adapter", "run_delegation_script", "Trace_FimDelegation", "Trace_FimDelegation.cfg", "variant"),
     "sliverdiff": ("harness.diff_adapter", "run_script", "Trace_FimSliverDiff", "Trace_FimSliverDiff.cfg", None),
